@@ -640,7 +640,7 @@ def main():
     return 2
 
   found = discover(pid)
-  cap = TIER_CAP[a.tier]
+  cap = int(os.environ.get("VERIF_CAP", TIER_CAP[a.tier]))
   global MEM_CAP_GB, MAX_JOBS
   if a.tier == "thorough":
     # deeper harnesses need more memory each: fewer at a time
